@@ -68,6 +68,12 @@ func observable(ex *rt.Exchange) map[string]string {
 	}
 	o["build_err"] = ex.BuildErr
 	o["stub_err"] = ex.StubErr
+	// a value that moved after it was handed over (retained result / payload read again later)
+	var late []string
+	for _, l := range ex.LateChange {
+		late = append(late, strings.SplitN(l, ":", 2)[0])
+	}
+	o["late_change"] = strings.Join(late, ",")
 	return o
 }
 
